@@ -24,10 +24,11 @@ func (fg *FuncGen) exec(in ssa.Instruction) {
 			return
 		}
 		r := fg.newRef(st)
+		fg.ownAllocs = append(fg.ownAllocs, r)
 		fg.storeRef(st, r, el, e.zero(el))
 		fg.vals[x] = Val{T: r, Typ: x.Type()}
 		if ct, _ := fg.structInvFor(x.Type()); ct != nil {
-			fg.invTouched[r] = touched{T: r, Typ: x.Type(), what: "allocated here"}
+			fg.touch(r, x.Type(), "allocated here")
 		}
 		if isStruct(el) {
 			fg.fieldStored(el, r, "", true, x.Pos())
@@ -65,9 +66,7 @@ func (fg *FuncGen) exec(in ssa.Instruction) {
 				fg.fieldStored(av.Loc.Struct, av.Loc.Ref, av.Loc.Field, false, x.Pos())
 				pt := types.NewPointer(av.Loc.Struct)
 				if ct, _ := fg.structInvFor(pt); ct != nil {
-					if _, ok := fg.invTouched[av.Loc.Ref]; !ok {
-						fg.invTouched[av.Loc.Ref] = touched{T: av.Loc.Ref, Typ: pt, what: "written here"}
-					}
+					fg.touch(av.Loc.Ref, pt, "written here")
 				}
 			}
 		} else {
@@ -76,9 +75,7 @@ func (fg *FuncGen) exec(in ssa.Instruction) {
 			if isStruct(el) {
 				fg.fieldStored(el, av.T, "", false, x.Pos())
 				if ct, _ := fg.structInvFor(x.Addr.Type()); ct != nil {
-					if _, ok := fg.invTouched[av.T]; !ok {
-						fg.invTouched[av.T] = touched{T: av.T, Typ: x.Addr.Type(), what: "assigned here"}
-					}
+					fg.touch(av.T, x.Addr.Type(), "assigned here")
 				}
 			}
 		}
@@ -92,6 +89,9 @@ func (fg *FuncGen) exec(in ssa.Instruction) {
 	case *ssa.ChangeInterface:
 		fg.vals[x] = Val{T: fg.term(x.X), Typ: x.Type()}
 	case *ssa.MakeInterface:
+		if _, ok := fg.g.boxNonNil[typeKey(x.X.Type())]; ok {
+			fg.oblige("typeinv", "no nil "+types_TypeString(x.X.Type())+" inside an interface: "+fg.g.srcText(x.Pos(), "any"), fg.nonNilTerm(fg.term(x.X), x.X.Type()), nil, "typeinv")
+		}
 		fg.vals[x] = Val{T: fg.box(fg.term(x.X), x.X.Type()), Typ: x.Type()}
 	case *ssa.TypeAssert:
 		fg.execTypeAssert(x)
@@ -181,6 +181,23 @@ func (fg *FuncGen) exec(in ssa.Instruction) {
 			fg.vals[v] = fg.freshVal("unsupp", v.Type())
 		}
 	}
+	// pointers obtained here: object invariants
+	if v, ok := in.(ssa.Value); ok {
+		if _, isCall := in.(*ssa.Call); !isCall {
+			if val, ok := fg.vals[v]; ok {
+				if val.Loc == nil && val.T != "" && isPtr(val.Typ) {
+					if _, isAlloc := in.(*ssa.Alloc); !isAlloc {
+						fg.assumeObjInv(val, fg.cur, false)
+					}
+				}
+				for _, tv := range val.Tup {
+					if tv.T != "" && tv.Typ != nil && isPtr(tv.Typ) {
+						fg.assumeObjInv(tv, fg.cur, false)
+					}
+				}
+			}
+		}
+	}
 }
 
 // toInt converts an integer term of Go type t to the 64-bit int sort.
@@ -251,7 +268,7 @@ func (fg *FuncGen) execIndexAddr(x *ssa.IndexAddr) {
 		el := u.Elem()
 		fg.oblige("safe:index", fg.srcOr(x.Pos(), "index"), and(e.iop("<=", e.ilit(0), iv, true), e.iop("<", iv, fmt.Sprintf("(sllen %s)", xv.T), true)), nil, "")
 		c := fg.elemComp(el)
-		idx := fg.named("idx", e.INT(), e.iop("+", fmt.Sprintf("(soff %s)", xv.T), iv, true))
+		idx := e.at(fmt.Sprintf("(soff %s)", xv.T), iv, true)
 		fg.vals[x] = Val{Typ: x.Type(), Loc: &Loc{Kind: lElem, Comp: c.Name, Ref: fmt.Sprintf("(sbase %s)", xv.T), Idx: idx, Root: el, Typ: el}}
 	case *types.Pointer:
 		arr := u.Elem().Underlying().(*types.Array)
@@ -290,7 +307,6 @@ func (fg *FuncGen) execUnOp(x *ssa.UnOp) {
 			fg.typeFacts(t, el)
 		}
 		fg.vals[x] = Val{T: t, Typ: x.Type()}
-		fg.assumeObjInv(fg.vals[x], fg.entry, false)
 	case token.NOT:
 		fg.vals[x] = Val{T: not(fg.term(x.X)), Typ: x.Type()}
 	case token.SUB:
@@ -527,7 +543,7 @@ func (fg *FuncGen) bytesOfString(s, sl string, st *State) {
 	c := fg.elemComp(types.Typ[types.Uint8])
 	I := e.INT()
 	fg.assume(fmt.Sprintf("(forall ((i %s)) (! (=> (and %s %s) (= (select (select %s (sbase %s)) %s) (sbyte %s i))) :pattern ((sbyte %s i))))",
-		I, e.iop("<=", e.ilit(0), "i", true), e.iop("<", "i", "(slen "+s+")", true), fg.get(st, c), sl, e.iop("+", "(soff "+sl+")", "i", true), s, s))
+		I, e.iop("<=", e.ilit(0), "i", true), e.iop("<", "i", "(slen "+s+")", true), fg.get(st, c), sl, e.at("(soff "+sl+")", "i", false), s, s))
 	e.usesQuant = true
 }
 
@@ -673,6 +689,10 @@ func (fg *FuncGen) execTypeAssert(x *ssa.TypeAssert) {
 		ok, val = fg.unbox(v, x.AssertedType)
 	}
 	okN := fg.namedBool("ta_ok", ok)
+	if _, has := fg.g.boxNonNil[typeKey(x.AssertedType)]; has {
+		fg.assume(implies(okN, fg.nonNilTerm(val, x.AssertedType)))
+		fg.note("type invariant assumed: no nil %s inside an interface", types_TypeString(x.AssertedType))
+	}
 	if x.CommaOk {
 		res := fg.named("ta", e.sortOf(x.AssertedType), ite(okN, val, e.zero(x.AssertedType)))
 		if !isIface(x.AssertedType) {
@@ -833,6 +853,10 @@ func (fg *FuncGen) execLookup(x *ssa.Lookup) {
 	if f := fg.typeFactsTerm(val, m.Elem(), fg.cur); f != "" {
 		fg.assume(f)
 	}
+	if _, ok := fg.g.mapNonNil[typeKey(x.X.Type())]; ok {
+		fg.assume(implies(domN, fg.nonNilTerm(val, m.Elem())))
+		fg.note("type invariant assumed: values of %s are non-nil", types_TypeString(x.X.Type()))
+	}
 	if x.CommaOk {
 		fg.vals[x] = Val{Typ: x.Type(), Tup: []Val{{T: val, Typ: m.Elem()}, {T: domN, Typ: types.Typ[types.Bool]}}}
 	} else {
@@ -900,6 +924,9 @@ func (fg *FuncGen) execNext(x *ssa.Next) {
 	e.usesQuant = true
 	fg.ghostSet(st, cell, srt, ite(okT, fmt.Sprintf("(store %s %s true)", seen, k), seen))
 	v := fg.named("it_v", e.sortOf(m.Elem()), fmt.Sprintf("(select (select %s %s) %s)", fg.get(st, vc), mref, k))
+	if _, ok := fg.g.mapNonNil[typeKey(r.X.Type())]; ok {
+		fg.assume(implies(okT, fg.nonNilTerm(v, m.Elem())))
+	}
 	if f := fg.typeFactsTerm(v, m.Elem(), st); f != "" {
 		fg.assume(f)
 	}
@@ -919,4 +946,14 @@ func (fg *FuncGen) f2iMath(v string, to types.Type) string {
 	fg.assume(fg.enc.rangeFact(t, to))
 	fg.note("float->int conversion is an uninterpreted (deterministic, in-range) function in math mode")
 	return t
+}
+
+func (fg *FuncGen) nonNilTerm(term string, t types.Type) string {
+	if isSlice(t) {
+		return fmt.Sprintf("(not (= (sbase %s) 0))", term)
+	}
+	if isIface(t) {
+		return fmt.Sprintf("(not (= %s anil))", term)
+	}
+	return fmt.Sprintf("(not (= %s 0))", term)
 }
